@@ -178,6 +178,10 @@ impl PingPong {
                 ping.sent = true;
             }
         } else if let Some(ref users) = self.user_pings {
+            // Register before checking the state, so that a `send_ping` racing
+            // with this check is not lost.
+            users.0.ping_task.register(cx.waker());
+
             if users.0.state.load(Ordering::Acquire) == USER_STATE_PENDING_PING {
                 if !dst.poll_ready(cx)?.is_ready() {
                     return Poll::Pending;
@@ -189,8 +193,6 @@ impl PingPong {
                     .0
                     .state
                     .store(USER_STATE_PENDING_PONG, Ordering::Release);
-            } else {
-                users.0.ping_task.register(cx.waker());
             }
         }
 
